@@ -175,6 +175,7 @@ fn c14_stream_types_and_headers_frame() {
         std::mem::forget(f);
         k += 1;
     }
+    kani::cover!(true, "completed");
 }
 
 /// Drain `w` with up to 3 symbolic `advance` amounts then completely; after each step `remaining()` and
@@ -235,6 +236,7 @@ fn c14_writebuf_data_partial_writes_len0_3() {
         data_case(l);
         l += 1;
     }
+    kani::cover!(true, "completed");
 }
 
 /// @check C14 thorough cost=300 timeout=1800
@@ -248,15 +250,16 @@ fn c14_writebuf_data_partial_writes_len4_8() {
         data_case(l);
         l += 1;
     }
+    kani::cover!(true, "completed");
 }
 
 /// @check C14 quick cost=120 timeout=900
 /// WriteBuf over (stream type, frame) — the conversion used for the first bytes of a unidirectional stream — and
-/// over id frames at the varint form boundaries: the drained bytes equal the Encode output, under partial writes.
+/// over the bare stream-type conversions: the drained bytes are type ++ frame header ++ payload, under partial writes.
 #[kani::proof]
 #[kani::unwind(34)]
 #[kani::stub(fastrand::u64, stubs::fastrand_u64_any)]
-fn c14_writebuf_prefixed_and_id_frames() {
+fn c14_writebuf_stream_type_prefix() {
     // (StreamType, Frame::Data): type 0x40 needs the two-byte form
     let payload: [u8; 2] = kani::any();
     let w = WriteBuf::<&[u8]>::from((StreamType::from_value(0x40), Frame::Data(&payload[..])));
@@ -268,17 +271,6 @@ fn c14_writebuf_prefixed_and_id_frames() {
     want[4] = payload[0];
     want[5] = payload[1];
     drain_and_compare(w, &want, 6);
-
-    let ids: [u64; 8] = [0, 63, 64, 16383, 16384, (1 << 30) - 1, 1 << 30, MAX62];
-    let mut k = 0;
-    while k < 8 {
-        let id = ids[k];
-        let f = Frame::<&[u8]>::Goaway(VarInt::from_u64(id).unwrap());
-        let (enc, n) = encode_to(&f);
-        let w = WriteBuf::<&[u8]>::from(f);
-        drain_and_compare(w, &enc, n);
-        k += 1;
-    }
     let w = WriteBuf::<&[u8]>::from(UniStreamHeader::Encoder);
     let mut want = [0u8; 32];
     want[0] = 0x02;
@@ -286,6 +278,39 @@ fn c14_writebuf_prefixed_and_id_frames() {
     let w = WriteBuf::<&[u8]>::from(StreamType::DECODER);
     want[0] = 0x03;
     drain_and_compare(w, &want, 1);
+    kani::cover!(true, "completed");
+}
+
+fn goaway_ids(ids: &[u64]) {
+    let mut k = 0;
+    while k < ids.len() {
+        let f = Frame::<&[u8]>::Goaway(VarInt::from_u64(ids[k]).unwrap());
+        let (enc, n) = encode_to(&f);
+        let w = WriteBuf::<&[u8]>::from(f);
+        drain_and_compare(w, &enc, n);
+        k += 1;
+    }
+}
+
+/// @check C14 quick cost=200 timeout=900
+/// WriteBuf over GOAWAY at the small varint form boundaries (ids 0, 63, 64, 16383): drained bytes equal the Encode
+/// output (whose content is proved for every id by c14_id_frames_any_id), under partial writes.
+#[kani::proof]
+#[kani::unwind(34)]
+#[kani::stub(fastrand::u64, stubs::fastrand_u64_any)]
+fn c14_writebuf_goaway_small_ids() {
+    goaway_ids(&[0, 63, 64, 16383]);
+    kani::cover!(true, "completed");
+}
+
+/// @check C14 thorough cost=300 timeout=1800
+/// Same at the large boundaries (16384, 2^30-1, 2^30, 2^62-1).
+#[kani::proof]
+#[kani::unwind(34)]
+#[kani::stub(fastrand::u64, stubs::fastrand_u64_any)]
+fn c14_writebuf_goaway_large_ids() {
+    goaway_ids(&[16384, (1 << 30) - 1, 1 << 30, MAX62]);
+    kani::cover!(true, "completed");
 }
 
 /// @check C14 quick cost=120 timeout=900
@@ -303,4 +328,5 @@ fn c14_writebuf_headers_partial_writes() {
     want[3] = 0x00;
     want[4] = 0xd1;
     drain_and_compare(w, &want, 5);
+    kani::cover!(true, "completed");
 }
